@@ -84,8 +84,8 @@ def matrix_job(j):
                 if not isinstance(resp, dict) or "__raised__" in resp:
                     mm.append("execute raised / non-dict %r" % (resp,))
                 st["distinct"].add((entry["doc"], entry["spelling"], entry["opName"], json.dumps(entry["given"]), cname, ci))
-                if mm and len(st["viol"]) < 50:
-                    st["viol"].append(({"kind": "envelope-matrix", "cls": entry["cls"], "coercer": cname, "first": mm[0][:140]},
+                if mm and len(st["viol"]) < 400:
+                    genrun.add_viol(st["viol"], ({"kind": "envelope-matrix", "cls": entry["cls"], "coercer": cname, "first": mm[0][:140]},
                                        {"entry": entry, "mismatches": mm, "response": repr(resp)[:2000]}))
         if len(st["samples"]) < 2 and entry["cls"] in ("opselect", "varcoerce"):
             st["samples"].append({"query": st["texts"][entry["doc"]].text, "operation_name": entry["opName"], "variables": variables_py(entry["given"]), "class": entry["cls"]})
@@ -200,8 +200,8 @@ def text_job(j):
     nbroken = sum(1 for r in records if r["cls"] == "broken")
     for r in records:
         ok, clause = verdicts[r["tid"]]
-        if not ok and len(viol) < 50:
-            viol.append(({"kind": "trace-rejected", "clause": clause, "class": r["cls"]}, {"record": r, "meta": meta[r["tid"]]}))
+        if not ok and len(viol) < 400:
+            genrun.add_viol(viol, ({"kind": "trace-rejected", "clause": clause, "class": r["cls"]}, {"record": r, "meta": meta[r["tid"]]}))
     return {"job": j, "tlc": [genrun.tlc_summary("MC_exec_sim.cfg(simulate seed=%d)" % j["seed"], res, exhaustive=False), genrun.tlc_summary("Trace_resp.cfg", tres)],
             "evaluations": len(records), "traces": len(records), "distinct": list(seen), "samples": [meta[t] for t in list(meta)[5:7]], "violations": viol,
             "extra": {"texts_rejected_by_parser": nbroken, "texts_parsed": len(records) - nbroken}}
